@@ -114,7 +114,7 @@ class CallMixin:
     def call_closure(self, c, args, kwargs, node):
         fn = c.node
         env = self.bind(fn.args, args, kwargs, None, c.frame)
-        fr = Frame(c.fs, env, c.frame.module, c.frame, c.frame.contract if c.fs is None else self.reg.contracts.get((c.fs.file, c.fs.qual)))
+        fr = Frame(c.fs, env, c.frame.module, c.frame, c.frame.contract if c.fs is None else self.reg.lookup(c.fs.file, c.fs.qual))
         if isinstance(fn, ast.Lambda):
             return self.ev(fn.body, fr)
         if c.fs is None:
@@ -199,7 +199,7 @@ class CallMixin:
             fs = self.func_src(f)
         except (KeyError, OSError) as ex:
             raise Unsupported(f'source of {f.__qualname__} not found: {ex}')
-        c = self.reg.contracts.get((fs.file, fs.qual))
+        c = self.reg.lookup(fs.file, fs.qual)
         if c is None:
             raise Unsupported(f'callee {fs.qual} has no contract (and is not marked inline)')
         mod = src.import_module(fs.file)
@@ -264,7 +264,7 @@ class CallMixin:
         self._newmap = None
         fr1.newmap = {id(entry[k]): live[k] for k in entry}
         for txt in c.ensures:
-            p.assume(self.ev_text(txt, fr1))
+            p.assume(self.ev_text(txt, fr1), heavy=True)
         if c.trusted:
             self.assumptions.add(f'assumed contract of {c.file}:{c.qual}' + (f' — {c.note}' if c.note else ''))
         return res
@@ -395,7 +395,7 @@ class CallMixin:
         if init is None or not isinstance(init, types.FunctionType):
             raise Unsupported(f'construction of {cls.__name__}')
         fs = self.func_src(inspect.unwrap(init))
-        c = self.reg.contracts.get((fs.file, fs.qual))
+        c = self.reg.lookup(fs.file, fs.qual)
         if c is None:
             raise Unsupported(f'constructor {fs.qual} has no contract')
         if c.inline:
@@ -436,6 +436,15 @@ class CallMixin:
     def call_spec(self, spec, args, node=None):
         fn = self.spec_ast(spec)
         zs = self.zs
+        hidden = spec.opaque and spec.name not in self.revealed
+        if hidden and not spec._rec:
+            sorts = [zs.zsort(s) for s in spec.sorts]
+            ret = zs.zsort(spec.ret)
+            k = '$opaque$' + spec.name
+            if k not in self.recfuns:
+                self.recfuns[k] = z3.Function(spec.name, *sorts, ret)
+            a2 = [zs.lift(self.unwrap_term(a), s) for a, s in zip(args, sorts)]
+            return self.wrap_sort(self.recfuns[k](*a2), spec.ret)
         if spec.uninterpreted or spec._rec:
             sorts = [zs.zsort(s) for s in spec.sorts]
             ret = zs.zsort(spec.ret)
@@ -458,6 +467,11 @@ class CallMixin:
             a2 = [zs.lift(self.unwrap_term(a), s) for a, s in zip(args, sorts)]
             return self.wrap_sort(self.recfuns[spec.name](*a2), spec.ret)
         # macro: expand in place
+        if isinstance(spec.ret, (api.Enum, api.Union)):
+            zs.zsort(spec.ret)
+        for S_ in spec.sorts:
+            if isinstance(S_, (api.Enum, api.Union)):
+                zs.zsort(S_)
         env = {a.arg: v for a, v in zip(fn.args.args, args)}
         if len(args) != len(fn.args.args):
             raise Unsupported(f'spec {spec.name}: arity')
@@ -546,8 +560,19 @@ class CallMixin:
         names['unit'] = Builtin('unit', lambda a, k, n, f: (a[0],))
         names['EMPTY'] = ()
         names['old'] = Builtin('old', lambda a, k, n, f: a[0])
+        names['seq_eq_from'] = Builtin('seq_eq_from', self.b_seq_eq_from)
         names['ite'] = Builtin('ite', lambda a, k, n, f: self.ite(self.truth(a[0]), a[1], a[2]))
         return names
+
+    def b_seq_eq_from(self, a, k, n, f):
+        x, y = self.seqterm(a[0]), self.seqterm(a[1])
+        if not z3.is_expr(x) and not z3.is_expr(y):
+            raise Unsupported('seq_eq_from on concrete values')
+        if not z3.is_expr(x):
+            x = self.zs.lift(tuple(x), y.sort())
+        if not z3.is_expr(y):
+            y = self.zs.lift(tuple(y), x.sort())
+        return self.zs.seq_eq_fn(x.sort())(x, y, self.zs.lift(a[2], INT))
 
     def q_forall(self, args, kwargs, node, fr, exists=False):
         # forall(Sort, lambda x: body)   (several sorts: forall(S1, S2, lambda x, y: body))
